@@ -2359,6 +2359,14 @@ func typeTestsItsArgument(h *ssa.Function) bool {
 // canonical rendering of the trip count ("(a - b)" style, with a zero bound dropped); ok is false for
 // every other shape — callers treat that as undecided, never as a pass.
 func unitLoopTrips(w *World, in ssa.Instruction) (string, bool) {
+	return unitLoopTripsX(w, in, nil)
+}
+
+// unitLoopTripsX: as unitLoopTrips; exits from the body into a block for which allowExit answers true do not
+// count (a caller that only needs "every element was visited unless the function failed" passes the test
+// "this block only fails"). The range-over-slice form go/ssa builds (index phi starting at -1, tested as
+// index+1 < len) is recognised as well.
+func unitLoopTripsX(w *World, in ssa.Instruction, allowExit func(*ssa.BasicBlock) bool) (string, bool) {
 	h := loopOf(in)
 	if h == nil {
 		return "", false
@@ -2367,7 +2375,7 @@ func unitLoopTrips(w *World, in ssa.Instruction) (string, bool) {
 	// exits only from the header; the instruction runs on every iteration
 	for b := range body {
 		for _, s := range b.Succs {
-			if !body[s] && b != h {
+			if !body[s] && b != h && !(allowExit != nil && allowExit(s)) {
 				return "", false
 			}
 		}
@@ -2412,6 +2420,26 @@ func unitLoopTrips(w *World, in ssa.Instruction) (string, bool) {
 	phi, ok := cond.X.(*ssa.Phi)
 	bound := cond.Y
 	op := cond.Op
+	if inc, isInc := cond.X.(*ssa.BinOp); !ok && isInc && inc.Op == token.ADD && op == token.LSS {
+		// for i := range xs: i = phi(-1, i+1); tested as i+1 < len(xs) before the body
+		if p, isPhi := inc.X.(*ssa.Phi); isPhi && p.Block() == h && len(p.Edges) == len(h.Preds) {
+			if k, isK := constInt(inc.Y); isK && k == 1 && invariant(bound) {
+				good := true
+				for i, e := range p.Edges {
+					if body[h.Preds[i]] {
+						good = good && e == ssa.Value(inc)
+					} else {
+						k0, isK0 := constInt(e)
+						good = good && isK0 && k0 == -1
+					}
+				}
+				if good {
+					return w.expr(bound), true
+				}
+			}
+		}
+		return "", false
+	}
 	if !ok {
 		// bound OP i  ==  i OP' bound
 		phi, ok = cond.Y.(*ssa.Phi)
